@@ -20,6 +20,22 @@ def main():
         print(f"no check for {prop}", file=sys.stderr)
         return 2
     ctx = vlib.Ctx(prop, a.tier, seed)
+    # watchdog: a hung worker pool (seen once, on a changed tree) must end as a machinery failure (exit 2), never as a silent hang
+    # (a timer thread, not SIGALRM: several tie libraries use SIGALRM / setitimer for their own per-call CPU limits)
+    import threading
+
+    def _too_long():
+        import multiprocessing
+        print(f"MACHINERY-ERROR {prop}: check exceeded VERIF_MAX_S", file=sys.stderr, flush=True)
+        for ch in multiprocessing.active_children():
+            try:
+                ch.terminate()
+            except Exception:
+                pass
+        os._exit(2)
+    wd = threading.Timer(float(os.environ.get("VERIF_MAX_S", str((3 if a.tier == "quick" else 8) * 3600))), _too_long)
+    wd.daemon = True
+    wd.start()
     try:
         if a.replay:
             import json
